@@ -603,7 +603,7 @@ func C16(c *run.Check) {
 }
 
 func init() {
-	Registry["C16"] = Prop{"exploration", C16}
+	Registry["C16"] = Prop{"fault_enumeration", C16}
 	replayers["C16"] = func(raw json.RawMessage) string {
 		var cs c16Case
 		json.Unmarshal(raw, &cs)
